@@ -186,6 +186,14 @@ func (w *World) decideWS(c *wsConn) wsDecision {
 		}
 	}
 	n.Announce(b)
+	if st := w.c08; st != nil {
+		// an announcement is the source speaking: the run of cache-served
+		// reads ends here (the cache may ignore a repeat; the bound only
+		// gets looser by that)
+		st.mu.Lock()
+		st.headHits = 0
+		st.mu.Unlock()
+	}
 	c.sent++
 	w.stat("ws_announcements", 1)
 	w.logf("ws %s announces %d %x", c.host, b.Num, b.Hash[:4])
